@@ -306,6 +306,14 @@ def finish(prop, tier, seed, acc, rule, bounds, assumptions, t0, extra_cov=None,
                 dist.setdefault(k, {}).setdefault(json.dumps(x), 0)
                 dist[k][json.dumps(x)] += 1
         print('TAG-SUMMARY (%d unlisted records kept): %s' % (len(allv), json.dumps(dist, sort_keys=True)))
+        byapi = {}
+        for v in allv:
+            k = '%s|%s|%s' % (v['check'], v['api'], v['engine'])
+            e = byapi.setdefault(k, [0, v])
+            e[0] += 1
+        for k, (n, v) in sorted(byapi.items()):
+            print('API-SUMMARY %s n=%d first: case=%s expected=%s observed=%s' % (
+                k, n, json.dumps(v['case']), json.dumps(v['expected']), json.dumps(v['observed'])))
     print('%s tier=%s seed=%d states=%d transitions=%d validated=%d nontrivial=%d outcomes=%d refused=%d known=%d unlisted_classes=%d wall=%.1fs' % (
         prop, tier, seed, acc.states, acc.transitions, acc.validated, acc.nontrivial, len(acc.outcomes), acc.refused,
         sum(v[1] for v in matched.values()), nclass, time.time() - t0))
